@@ -112,7 +112,7 @@ def healedBy : List (String × String) :=
 /-- owning pointer members that clean_up() does not release itself, with the function that does (frees:F, checked against the AST).
     init() sets them to NULL, so nothing of the old object can be reached after a load. -/
 def freedElsewhere : List (String × String) :=
-  [("heat_mix_array", "frees:transport_cleanup"), ("m_s", "frees:transport_cleanup"), ("sol_D", "frees:transport_cleanup"),
+  [("heat_mix_array", "frees:transport_cleanup"), ("m_s", "frees:multi_D"), ("sol_D", "frees:transport_cleanup"),
    ("temp1", "frees:transport_cleanup"), ("temp2", "frees:transport_cleanup")]
 
 def ioHealedBy : List (String × String) :=
